@@ -157,7 +157,7 @@ def applyMv (s : Sim) : Mv → Option Sim
 def hiddenMoves : List Mv :=
   [.swept, .accept, .c .lockReq, .register, .c .check0, .c .tlsDone, .c .tlsFail, .c .firstByte, .c .idleFail,
    .c .readDone, .c .readFail, .c .check, .c .forward, .c .respReady, .c .writeHead, .c .writeHeadFail, .c .writeDone,
-   .c .writeFail, .c .relay, .c .tunnelEnd, .c .sockClose, .c .counterDec, .unregister]
+   .c .writeFail, .c .relay, .c .tunnelEnd, .c .closeStart, .c .closeDone, .c .counterDec, .unregister]
 
 def consume (s : Sim) : Item → Option Sim
   | .ev (.connect _ t) =>
